@@ -13,6 +13,7 @@ func main() {
 		"c36":         c36,
 		"c36probe":    c36probe,
 		"c08":         c08,
+		"c08map":      c08map,
 		"c11dict":     c11dict,
 		"c11dictconn": c11dictconn,
 	})
